@@ -305,6 +305,9 @@ func scaleMap(j *jobCtx, kind string) {
 		}
 	}
 	n := scaleN(j)
+	if j.quick() && mapSorted(kind) {
+		n = 600 // (the hash kinds, which rehash, shrink and compact by size, go to 1100 in the quick tier; everything to 2300 in the thorough one)
+	}
 	bidi := mapBidi(kind)
 	for _, c := range cfgs {
 		probeK := []int{-1, 0, 1, 2, n / 2, n - 1, n, n + 1}
